@@ -225,6 +225,7 @@ impl<T: Socket + ?Sized> Worker<T> {
                         block_num: received_block_number,
                         data,
                     }) => {
+                        retry_cnt = 0;
                         if received_block_number == block_number.wrapping_add(1) {
                             block_number = received_block_number;
                             size = data.len();
